@@ -86,6 +86,20 @@ class Obligation:
         if f.key not in {x.key for x in self.findings}:
             self.findings.append(f)
 
+    def missing(self, fi: FunctionInfo | None, node: ast.AST | None, message: str, path: str = "", also: "list[FunctionInfo] | None" = None) -> None:
+        """A required mechanism was not found in `fi`.  That is a violation - unless the function hands
+        work to helpers the normaliser could not see through (private same-module helpers that are not
+        rule anchors and could not be inlined): then the mechanism may live there and the honest answer
+        is 'unrecognised idiom' (ANALYSIS-ERROR, exit 2), not an alarm."""
+        opaque: list[str] = []
+        if self.an is not None:
+            for f in [fi, *(also or [])]:
+                if f is not None:
+                    opaque += self.an.opaque_helpers(f)
+        if opaque:
+            raise AnalysisError(f"{self.id}: {message} - but {fi.short if fi else '?'} delegates to helper(s) {sorted(set(opaque))} that could not be inlined; unrecognised idiom")
+        self.fail(fi, node, message, path)
+
     def note(self, text: str) -> None:
         self.notes.append(text)
 
@@ -162,6 +176,25 @@ class Analysis:
             return frozenset({ANY})
         return self.cfg(target).escapes
 
+    def opaque_helpers(self, fi: FunctionInfo) -> list[str]:
+        """Private same-module helpers (not rule anchors) still *called* from fi after normalisation."""
+        from .normalize import ANCHOR_HELPERS
+
+        out = []
+        for n in fi.own_nodes():
+            if isinstance(n, ast.Call):
+                q = self.prog.resolve_callee(fi, n)
+                t = self.prog.functions.get(q or "")
+                if t is None or t.module is not fi.module or t is fi:
+                    continue
+                name = t.name
+                if name.startswith("_") and not (name.startswith("__") and name.endswith("__")) and q.split("#")[0] not in ANCHOR_HELPERS:
+                    # nested closures defined in fi itself are visible, not opaque
+                    if t.outer is fi:
+                        continue
+                    out.append(t.short)
+        return out
+
     def summary_suspends(self, fi: FunctionInfo) -> bool:
         return fi.is_async
 
@@ -184,6 +217,8 @@ class Analysis:
             "call_sites_resolved": self.calls_resolved,
             "call_sites_unresolved": self.calls_unresolved,
             "unresolved_samples": self.unresolved_samples,
+            "normalisation": getattr(self.prog, "normalisation_log", [])[:40],
+            "helpers_analysed_inside_their_callers": sorted(getattr(self.prog, "absorbed", set())),
         }
 
 
